@@ -4,14 +4,18 @@ Proof: Props/C09.lean — waits_cover_ctx_and_conn (decided over the blocking po
 returns_after_cancel / slot_chain_drains (every peer behaviour), close protocol invariants for every interleaving.
 Tie: T — Generated/BlockingWaits.lean (primary); X — the interruption grid on real udp/tcp connections (in-memory
 transports, synctest): operation x interruption point x cause, then concurrent Close from three goroutines;
-stream writes stalled by a peer that stopped reading (real time); source facts closeTakesWriteLock / writeArmsDeadline.
+stream writes stalled by a peer that stopped reading (real time); source facts closeTakesWriteLock / writeArmsDeadline;
+registryCloseVisitsAll (pkg/connections) with stream / DTLS servers whose transports report an error from Close();
+the option-buffer retry loop of the readers' decode (Generated/PoolRetry.lean) with peers that send 16 ... 5000 options.
 """
 import random
 
 from . import common
 
-MODULES = ["CoapVerif.Props.C09", "CoapVerif.Findings.C09", "CoapVerif.Props.C18Runner"]
-GENERATED = ["BlockingWaits.lean"]
+MODULES = ["CoapVerif.Props.C09", "CoapVerif.Findings.C09", "CoapVerif.Props.C18Runner",
+           "CoapVerif.Props.C09Registry",   # Stop ends every accepted connection whatever a connection's Close() reports
+           "CoapVerif.Props.C09Reader"]     # the reader comes back from decoding whatever the peer has sent
+GENERATED = ["BlockingWaits.lean", "PoolRetry.lean"]
 OPS = ["get", "observe", "obscancel", "ping", "write"]
 POINTS = ["pre", "sent", "acked", "queued", "midblock"]
 CAUSES = ["cancel", "deadline", "close", "peerclose", "garbage"]
@@ -62,6 +66,12 @@ def explore(ctx, art):
     # a stream server accepts a connection whose peer is already gone: the signalling message written during the set-up
     # fails; the connection handed to OnNewConn must still complete its done signal and run its callbacks once
     lines += ["case tcp srvstop deadpeer stop"]
+    # a stream / DTLS server (in-memory listener) whose accepted transport connections RELEASE the connection in Close() but
+    # report an error - what a tls.Conn / pion conn does when its close_notify alert cannot be delivered to a failed peer -
+    # all of them (f) / every second one (h); the peers are silent.  Stop() must still end every connection: Serve returns,
+    # every peer sees its connection end, every done signal is completed, every callback ran once (seeded C09-V: the registry
+    # pkg/connections gave up at the first connection whose Close() reported an error)
+    lines += ["case %s srvstop k%d%s stop" % (t, k, m) for t in ("tcp", "dtls") for k, m in ((2, "f"), (5, "f"), (4, "h"), (6, "h"))]
     # DTLS (pion's real handshake and record layer, loopback): the peer never answers the ClientHello; the peer completes the
     # handshake and stays silent / acknowledges without responding
     lines += ["case dtls %s handshake %s" % (o, c) for o in OPS if o != "obscancel" for c in ("cancel", "deadline", "close")]
@@ -72,6 +82,21 @@ def explore(ctx, art):
     impl = common.run_test_harness(ctx, art["test"], "TestC09", lines, timeout=1500)
     if impl is None or len(impl) != len(lines):
         return
+    # "whatever the peer does": after the request is out the peer sends one WELL-FORMED message that carries N (empty Uri-Path)
+    # options - unusual, legal, within one datagram of the default MTU up to ~1460 - so that the option buffer of the pooled
+    # message that receives it has to grow 16 -> 32 -> ... past N; then cancel / Close().  N sits on both sides of every power
+    # of two the buffer passes through that matters (16|17, 1024|1025) and beyond (1100, 1400; streams: 2049, 5000).  Real
+    # time, in-memory transports, bound 0.5 s.  The same for servers: one more peer has sent such a message right before
+    # Stop().  A separate run of the harness, last: a reader that never comes back from decoding spins for the rest of the
+    # process (seeded C09-W: the growth clamped at 1024 entries without an exit).
+    many = ["case %s %s opts%d close" % (t, o, n) for t in ("udp", "tcp") for o in OPS for n in (1024, 1025)]
+    many += ["case %s get opts%d %s" % (t, n, c) for t in ("udp", "tcp") for n in (16, 17, 1100, 1400) for c in ("cancel", "close")]
+    many += ["case tcp get opts%d %s" % (n, c) for n in (2049, 5000) for c in ("cancel", "close")]
+    many += ["case %s srvstop k1o%d stop" % (t, n) for t in ("udp", "tcp", "dtls") for n in (1024, 1025, 1100)]
+    impl2 = common.run_test_harness(ctx, art["test"], "TestC09", many, timeout=600, tag="manyopts")
+    if impl2 is None or len(impl2) != len(many):
+        return
+    lines, impl = lines + many, impl + impl2
     judge = None
     if art.get("driver"):
         rc, judge, _ = common.pipe_lines([art["driver"], "judge"], [l + " | " + o for l, o in zip(lines, impl)])
@@ -84,7 +109,7 @@ def explore(ctx, art):
     # on a loaded machine) is repeated alone, twice at most; only a set-up that fails every time is reported
     for i, (l, o) in enumerate(zip(lines, impl)):
         f = l.split()
-        realtime = f[2] in ("srvstop", "discover") or f[1] == "dtls" or f[3] == "stalled"
+        realtime = f[2] in ("srvstop", "discover") or f[1] == "dtls" or f[3] == "stalled" or f[3].startswith("opts")
         if realtime and o in ("conn-error", "setup-failed"):
             for attempt in range(2):
                 again = common.run_test_harness(ctx, art["test"], "TestC09", [l], timeout=300, tag="retry")
